@@ -12,13 +12,18 @@ RULE = ("seeded op scripts (find / find_or_insert / insert / erase+reclaim / ite
         "split (link node allocated) and at least one erase")
 TRUSTED = ["extraction: ExtrOcamlBasic only; OCaml 4.13.1; comp/radix/driver.ml",
            "correspondence harness comp/radix/harness.cpp (g++ -fsanitize=address,undefined, -fno-access-control)",
-           "oracle: std::map<uint64_t, value*>, UBSan/ASan, lifetime/allocation registries in lib/vharness.hpp",
+           "oracle: std::map<uint64_t, value*>, std::map<uint64_t, Bag> for the constructor form (value-ctor), UBSan/ASan, "
+           "lifetime/allocation registries in lib/vharness.hpp",
            "translator/gen_radix.py (clang JSON AST -> Gen/RadixOrders.v); translator/gen_cxxleaf.py + CxxLeaf/Tie_radix.v for pfx_of/idx_of",
            "modelled, not verified: value-initialisation of fresh nodes (all fields zero); memory orders are carried by the "
            "micro-steps and tied to the source by Gen/RadixOrders.v but have no sequential meaning (C10)"]
 ASSUMPTIONS = ["single writer, no concurrent readers (C10 covers readers)",
                "insert only of absent keys, erase only of present keys (the code asserts both; scripts violating it must stop in FRG_ASSERT)",
-               "erase protocol: the caller destroys the erased value (pointer kept from find) before the key is inserted again"]
+               "erase protocol: the caller destroys the erased value (pointer kept from find) before the key is inserted again",
+               "the value stored for a key is a function of the constructor arguments only, not of the insertion case (the model's "
+               "MConstruct carries the value abstractly in all three cases); checked on the real code by the harness's second "
+               "instantiation rcu_radixtree<Bag> (initializer_list constructor, two-argument insert/find_or_insert) against a "
+               "std::map<uint64_t, Bag> built with T{args...}, the form the header uses in all three cases (oracle kind value-ctor)"]
 
 def nontrivial(cid, lines, ri):
     if any(l.startswith("e alloc") and l.endswith("link") for l in ri["lines"]) and any(l.startswith("e ") for l in lines):
